@@ -540,3 +540,49 @@ Example C20_dynamic_nonvacuous :
   c20_dyn_index 3 (-1) = C20_Ok 2%nat /\ c20_dyn_index 3 (-4) = C20_Exc C20_IndexError /\ c20_dyn_index 3 3 = C20_Exc C20_IndexError /\
   c20_veq [1#2; 2#1]%Q [2#4; 2#1]%Q = true /\ c20_inf_norm [3#1; -4#1; 0]%Q = (4#1)%Q.
 Proof. vm_compute; repeat split; reflexivity. Qed.
+
+(* ================================================================== cross-cutting coverage audit ========================= *)
+(* ---- roles: a NumPy view of a vector as RECEIVER of in-place arithmetic and as left operand; slice assignment whose value is
+   another object (possibly overlapping the target); dropping the owner's reference changes nothing *)
+Theorem C20_view_as_receiver : forall cfg st r s o p, nth_error (c20_regs st) r = Some o -> c20_k o = C20_Arr -> nth_error (c20_regs st) s = Some p ->
+  (forall y, c20_np_operand (c20_size o) (c20_vals st p) = C20_Ok y ->
+     c20_step cfg st (C20_ArrIAdd r s) = c20_inplace st o (c20_vadd (c20_vals st o) y) /\
+     c20_step cfg st (C20_ArrISub r s) = c20_inplace st o (c20_vsub (c20_vals st o) y) /\
+     c20_step cfg st (C20_ArrAdd r s) = c20_push_new st C20_Arr (c20_vadd (c20_vals st o) y)) /\
+  (forall e, c20_np_operand (c20_size o) (c20_vals st p) = C20_Exc e ->
+     c20_step cfg st (C20_ArrIAdd r s) = (st, C20_ObsExc e) /\
+     (c20_size o <> 1%nat -> c20_step cfg st (C20_ArrAdd r s) = (st, C20_ObsExc e)) /\
+     (c20_size o = 1%nat -> c20_step cfg st (C20_ArrAdd r s) =
+        c20_push_new st C20_Arr (c20_vadd (repeat (nth 0 (c20_vals st o) 0%Q) (c20_size p)) (c20_vals st p)))) /\
+  (forall q, c20_step cfg st (C20_ArrIMulS r q) = c20_inplace st o (c20_vscale q (c20_vals st o)) /\
+             c20_step cfg st (C20_ArrIAddS r q) = c20_inplace st o (c20_vadds q (c20_vals st o))) /\
+  (forall a b c, c20_step cfg st (C20_SetSliceFrom r a b c s) = c20_step cfg st (C20_SetSlice r a b c (c20_vals st p))) /\
+  c20_step cfg st (C20_Drop r) = (st, C20_ObsNone).
+Proof. exact P_arr_ops. Qed.
+Print Assumptions C20_view_as_receiver.
+
+Theorem C20_numpy_broadcast : forall n vals,
+  (List.length vals = n -> c20_np_operand n vals = C20_Ok vals) /\
+  (List.length vals = 1%nat -> n <> 1%nat -> c20_np_operand n vals = C20_Ok (repeat (nth 0 vals 0%Q) n)) /\
+  (List.length vals <> n -> List.length vals <> 1%nat -> c20_np_operand n vals = C20_Exc C20_ValueError) /\
+  (forall y, c20_np_operand n vals = C20_Ok y -> List.length y = n).
+Proof. exact P_np_operand. Qed.
+Print Assumptions C20_numpy_broadcast.
+
+(* ---- aliasing: the operand IS the receiver (entries are read before the result is written) *)
+Theorem C20_self_alias : forall cfg st r o, nth_error (c20_regs st) r = Some o -> c20_k o = C20_Vec ->
+  c20_step cfg st (C20_IAdd r r) = c20_inplace st o (c20_vadd (c20_vals st o) (c20_vals st o)) /\
+  c20_step cfg st (C20_ISub r r) = c20_inplace st o (c20_vsub (c20_vals st o) (c20_vals st o)) /\
+  c20_step cfg st (C20_Assign r r) = c20_inplace st o (c20_vals st o) /\
+  c20_step cfg st (C20_Dot r r) = (st, C20_ObsScalar (c20_two_norm2 (c20_vals st o))) /\
+  c20_step cfg st (C20_Eq r r) = (st, C20_ObsBool (c20_veq (c20_vals st o) (c20_vals st o))).
+Proof. exact P_self_alias. Qed.
+Print Assumptions C20_self_alias.
+
+Example C20_audit_nonvacuous :
+  let ops := [C20_New 4 [1#1; 2#1; 3#1; 4#1]%Q; C20_Slice 0 (Some 1%Z) (Some 4%Z) None; C20_SetSliceFrom 0 None (Some 3%Z) None 1; C20_View 0;
+              C20_Slice 0 None None (Some (-1)%Z); C20_ArrIAdd 2 3; C20_IAdd 0 0; C20_Drop 0; C20_ArrAdd 2 1; C20_ArrIMulS 1 (1#2)%Q] in
+  c20_dump (fst (c20_run c20_cfg_fixed c20_init ops)) =
+    [(C20_Vec, [12#1; 7#1; 7#1; 6#1]%Q); (C20_Arr, [7#1; 7#1; 6#1]%Q); (C20_Arr, [12#1; 7#1; 7#1; 6#1]%Q); (C20_Arr, [6#1; 7#1; 7#1; 12#1]%Q)] /\
+  nth 8 (snd (c20_run c20_cfg_fixed c20_init ops)) C20_ObsNone = C20_ObsExc C20_ValueError.
+Proof. vm_compute; split; reflexivity. Qed.
